@@ -14,6 +14,7 @@ import pandas as pd
 from rv import core, excelgen, monitors
 from rv.fingerprint import fp, diff
 
+ANCHORS = ['process_samples_table', 'process_beads_table', 'add_samples_stats', 'generate_histograms_table']      # functions the property is anchored in: never entered => inconclusive
 LEVEL = 'exploration'
 LEVEL_TEXT = "The real Excel workflow on generated experiments; every returned sample compared bit for bit with a hand composition of the documented steps, statistics columns with the library statistics of the gated sample, histogram rows with np.histogram over the library's edges; the library steps run under their own monitors in situ. Exploration."
 TECHNIQUE = 'runtime contract on the Excel workflow vs hand composition of documented steps, with library-step monitors attached in situ'
